@@ -245,6 +245,9 @@ def _classify_decl(e, r, mod):
     if set(r) == {"evaluation_raised"} and "Dtype error" in r["evaluation_raised"]["error"] \
             and mod.get("eval_dt") == "err:dtype" and not G.kind_uniform(e) and G.uses_adjoint(e):
         return "adj-dtype-check-mixed"
+    if set(r) == {"dtype"} and mod.get("eval_dt") == r["dtype"]["returned_dtype"] and not G.dtype_uniform(e):
+        # the model computes the same (wrong) returned dtype: operands of different dtypes were combined
+        return "mixed-operand-dtypes"
     return None
 
 
@@ -271,6 +274,13 @@ def findings(ctx, model):
     except ValueError as ex:
         still2 = "Dtype error" in str(ex)
     ctx.known_finding("adj-dtype-check-mixed", still2)
+    # sum of operators with different input dtypes: declared complex, returns real
+    Dr = linop.Diagonal(jnp.ones((2,), dtype=np.float64))
+    Gc = linop.LinearOperator(input_shape=(2,), output_shape=(2,), eval_fn=lambda x: 2.0 * x, adj_fn=lambda y: 2.0 * y,
+                              input_dtype=np.complex128, output_dtype=np.complex128)
+    S = Dr + Gc
+    y = S(jnp.ones((2,), dtype=S.input_dtype))
+    ctx.known_finding("mixed-operand-dtypes", np.dtype(S.output_dtype) != np.dtype(y.dtype))
 
 
 def replay(ctx, model, case):
